@@ -107,6 +107,15 @@ func (g *srvGen) variant(r2 *rand.Rand) int {
 		a.cid = append(append([]byte{}, pre...), 1, byte(r2.Intn(256)))
 		b.cid = append(append([]byte{}, pre...), 2)
 	}
+	// a hardware address of all zeros (a client identifier tells such clients apart) - an address like any other
+	if r2.Intn(12) == 0 {
+		for _, c := range g.clients {
+			if !c.static && len(c.mac) == 6 {
+				c.mac = []byte{0, 0, 0, 0, 0, 0}
+				break
+			}
+		}
+	}
 	// a hardware address with the group bit set (nobody forbids a client to send one; replies echo it bit for bit)
 	if r2.Intn(4) == 0 {
 		for _, c := range g.clients {
@@ -183,7 +192,8 @@ func (g *srvGen) variant(r2 *rand.Rand) int {
 		}
 	case 2:
 		c := &g.cfg
-		c.bits, c.netU, c.maskU = 16, 0x0a000000|uint32(1+r2.Intn(200))<<16, 0xffff0000
+		// (not only private networks: carrier-grade NAT space, public blocks, the top of class C)
+		c.bits, c.netU, c.maskU = 16, uint32([]byte{10, 10, 100, 172, 198, 203, 223}[r2.Intn(7)])<<24|uint32(1+r2.Intn(200))<<16, 0xffff0000
 		c.selfIP, c.router = c.netU+1, ipStr(c.netU+1)
 		c.hasRange, c.rangeB = true, c.netU+uint32(256*(1+r2.Intn(200)))+uint32(r2.Intn(256))
 		c.rangeE = c.rangeB + 1024 + uint32(r2.Intn(150))
@@ -199,7 +209,7 @@ func (g *srvGen) variant(r2 *rand.Rand) int {
 		// a network larger than /24 whose small dynamic range ends (or begins) on an address ending in .255 or .0: those are passed
 		// over, and nothing beyond the range may be handed out instead
 		c := &g.cfg
-		c.bits, c.netU, c.maskU = 22, 0x0a000000|uint32(1+r2.Intn(200))<<16|uint32(4*r2.Intn(60))<<8, 0xfffffc00
+		c.bits, c.netU, c.maskU = 22, uint32([]byte{10, 10, 100, 172, 198, 203, 223}[r2.Intn(7)])<<24|uint32(1+r2.Intn(200))<<16|uint32(4*r2.Intn(60))<<8, 0xfffffc00
 		c.selfIP, c.router = c.netU+1, ipStr(c.netU+1)
 		edge := c.netU + []uint32{0x1ff, 0x200, 0x2ff, 0x100}[r2.Intn(4)]
 		if r2.Intn(3) == 0 {
